@@ -590,7 +590,22 @@ func checkC12(c *Ctx) {
 			sn := []byte{1, 1, 2, 3}
 			acc := core.BuildAccept(p, 5, 1, sn).Encode()
 			psi := byte(5)
-			msg := nas.Protect(2, []byte{0, 0, 0, 0}, byte(k), nas.DLNASTransport(acc, &psi, nil))
+			// MAC and sequence number are whatever the keys make them: octet patterns that look like the
+			// plain header behind them (7e 00 68) included
+			mac, sq := ur.Bytes(4), byte(ur.Intn(256))
+			switch ur.Intn(8) {
+			case 0:
+				mac = []byte{0x7e, 0x00, 0x68, byte(ur.Intn(256))}
+			case 1:
+				mac = []byte{byte(ur.Intn(256)), 0x7e, 0x00, 0x68}
+			case 2:
+				mac, sq = []byte{byte(ur.Intn(256)), byte(ur.Intn(256)), 0x7e, 0x00}, 0x68
+			case 3:
+				mac, sq = []byte{0x2e, byte(ur.Intn(16)), 0x00, 0xc2}, 0x7e
+			case 4:
+				mac = []byte{0, 0, 0, 0}
+			}
+			msg := nas.Protect(2, mac, sq, nas.DLNASTransport(acc, &psi, nil))
 			switch k % 5 {
 			case 0, 1:
 				ins = append(ins, map[string]interface{}{"fn": "nas", "hex": hex.EncodeToString(msg), "want": net.ParseIP(p.UEIP).String(), "note": fmt.Sprintf("opts %#x qos %d", p.AccOpt, p.QoSRuleLen)})
